@@ -58,10 +58,14 @@ def replay(tid, vendor, sizes, bound, cons, ns, rng):
     limit = 0.5
     tally = {c: {"W": rng.randint(1, total), "L": rng.randint(0, total), "X": rng.randint(0, total)} for c in cons}
     cards = {c: max(1, bound) for c in cons}
+    # each contest is tested with a seed-chosen shipped test (the risk must not rise whatever the test): ALPHA, or
+    # Kaplan-Markov with and without padding (without it a ballot for the loser - a zero - pins the product)
+    tests = {c: rng.choice([(NonnegMean.alpha_mart, 0.1), (NonnegMean.alpha_mart, 0.1), (NonnegMean.kaplan_markov, 0),
+                            (NonnegMean.kaplan_markov, 0.1)]) for c in cons}
     contests = Contest.from_dict_of_dicts({c: {"name": c, "risk_limit": limit, "cards": cards[c], "choice_function": "PLURALITY",
                                                "n_winners": 1, "candidates": ["W", "L", "X"], "winner": ["W"],
-                                               "audit_type": Audit.AUDIT_TYPE.POLLING, "test": NonnegMean.alpha_mart,
-                                               "estim": NonnegMean.fixed_alternative_mean, "use_style": False,
+                                               "audit_type": Audit.AUDIT_TYPE.POLLING, "test": tests[c][0],
+                                               "estim": NonnegMean.fixed_alternative_mean, "use_style": False, "g": tests[c][1],
                                                "tally": dict(tally[c]), "test_kwargs": {}} for c in cons})
     audit = compare.mk_audit(False, max(1, bound))
     e = {"tid": f"{tid}:1", "walk": tid, "act": "margins", "cons": cons, "tally": tally, "cards": cards}
